@@ -93,8 +93,6 @@ func c20(r *core.Run) {
 		nSplit := 0
 		S := `strings.Split(strings.TrimSuffix(P0,"/"),"/")`
 		last := "(len(" + S + ")-1)"
-		allowed := map[string]bool{"strings.TrimSuffix": true, "strings.Split": true, "strings.SplitN": true, "strings.Join": true, "strings.LastIndex": true, "strings.Index": true, "strings.Cut": true,
-			"len": true, "slice": true, "elem": true, "hex": true, "sha256.New": true, "concat": true, "dec": true, "alt": true}
 		splitters := map[*ssa.Function]bool{}
 		for _, fn := range p.Funcs {
 			if !strings.HasPrefix(core.RelPkg(core.FnPkgPath(fn)), "x/filetree") || core.IsTestSupportPkg(core.FnPkgPath(fn)) || p.IsGenerated(fn) || fn.Synthetic != "" {
@@ -126,39 +124,48 @@ func c20(r *core.Run) {
 				}
 				tb := core.NewTermBuilder(p)
 				tb.Bounds = true
-				parent, child := "", tb.Term(ret.Results[1])
-				allInstrs(fn, func(in ssa.Instruction) {
-					if c, ok := in.(*ssa.Call); ok {
-						for _, cal := range p.Callees(c) {
-							if cal == hasher {
-								parent = tb.Term(c.Call.Args[0])
+				child := tb.Term(ret.Results[1])
+				wantChild := "hex(sha256.New(elem(" + S + "," + last + ")))"
+				// parent: the hasher's fold over all segments but the last
+				ph, isPhi := ret.Results[0].(*ssa.Phi)
+				if !isPhi || !core.InCycle(ph.Block()) {
+					reparsed := ""
+					allInstrs(fn, func(in ssa.Instruction) {
+						if c, ok := in.(*ssa.Call); ok {
+							for _, cal := range p.Callees(c) {
+								if cal == hasher {
+									reparsed = tb.Term(c.Call.Args[0])
+								}
 							}
 						}
+					})
+					if reparsed != "" {
+						r.Violation("C20/R3", construct, p.Pos(fn.Pos()), "the parent address is the path hasher applied to a re-assembled parent string ("+reparsed+"): the hasher trims a trailing '/' and never sees zero segments, so an empty last parent segment (\"a//c\") is dropped and a one-segment path (\"s\") gets the one-empty-segment parent — AddToMerkle(parent, child) differs from the address of the plain path")
+					} else {
+						r.Violation("C20/R3", construct, p.Pos(fn.Pos()), "the parent address is not the hasher's fold over the leading segments: "+tb.Term(ret.Results[0]))
 					}
-				})
-				if parent == "" {
-					r.Violation("C20/R3", construct, p.Pos(fn.Pos()), "the splitter does not derive the parent address with the path hasher")
 					continue
 				}
-				bad := ""
-				for _, t := range []string{parent, child} {
-					for _, f := range termFuncs(t) {
-						if !allowed[f] {
-							bad = f
-						}
+				var init, update ssa.Value
+				for i, e := range ph.Edges {
+					if core.SameLoop(ph.Block().Preds[i], ph.Block()) {
+						update = e
+					} else {
+						init = e
 					}
 				}
-				if bad != "" {
-					r.Violation("C20/R3", construct, p.Pos(fn.Pos()), "the splitter passes the path through "+bad+", which is not one of the segment-preserving primitives the path hasher itself uses: for some paths AddToMerkle(parent, child) differs from the address of the plain path; parent="+parent+" child="+child)
-					continue
+				tb.Names[ph] = "ACC"
+				ut, it := tb.Term(update), tb.Term(init)
+				okParent := false
+				for _, lo := range []string{"0", ""} {
+					seg := "hex(sha256.New(elem(slice(" + S + "," + lo + "," + last + "))))"
+					if ut == strings.Replace(strings.Replace(foldStepTerm, "P0", "ACC", 1), "P1", seg, 1) {
+						okParent = true
+					}
 				}
-				// the Split/Join idiom: parent = all segments but the last, child = the last segment
-				if strings.Contains(parent, "strings.Join(slice(") {
-					okShape := (parent == `strings.Join(slice(`+S+`,0,`+last+`),"/")` || parent == `strings.Join(slice(`+S+`,,`+last+`),"/")`) && child == "hex(sha256.New(elem("+S+","+last+")))"
-					r.Check(okShape, "C20/R3", construct, p.Pos(fn.Pos()), "parent = segments[:n-1] joined by \"/\", child = hex(SHA256(segments[n-1])) over the hasher's own segmentation", "the splitter does not cut the hasher's segmentation into (all but the last segment, last segment): parent="+parent+" child="+child)
-				} else {
-					r.Ok("C20/R3", construct, p.Pos(fn.Pos()), "built from segment-preserving primitives only: parent="+parent+" child="+child)
-				}
+				r.Check(okParent && it == `""` && child == wantChild, "C20/R3", construct, p.Pos(fn.Pos()),
+					"parent = fold of combiner over segments[:n-1] starting from \"\", child = hex(SHA256(segments[n-1])), over the hasher's own segmentation",
+					"the splitter does not cut the hasher's segmentation into (fold of all but the last segment, hash of the last segment): parent step="+ut+" start="+it+" child="+child)
 			}
 		}
 		r.Floor("C20/R3", nSplit, 2, "path splitters")
@@ -244,31 +251,4 @@ func c20(r *core.Run) {
 		}
 		r.Check(found, "C20/R2", h.Key()+":root-address", p.Pos(h.Fn.Pos()), "root address = pathHasher(constant)", "the root folder's address is not the path hasher applied to a constant path")
 	}
-}
-
-// termFuncs lists the function symbols of a canonical term.
-func termFuncs(t string) []string {
-	var out []string
-	inq := false
-	start := -1
-	for i, c := range t {
-		switch {
-		case c == '"':
-			inq = !inq
-			start = -1
-		case inq:
-		case c == '(':
-			if start >= 0 && start < i {
-				out = append(out, t[start:i])
-			}
-			start = -1
-		case c == ',' || c == ')' || c == '-' || c == '+' || c == '#':
-			start = -1
-		default:
-			if start < 0 {
-				start = i
-			}
-		}
-	}
-	return out
 }
